@@ -420,6 +420,17 @@ def gen_c06(rnd, n, thorough=False):
                 rnd.shuffle(sh)
             cases.append({'id': 'c06-%d-order' % c, 'lines': ["create f %s m %d x %08x" % (fmt_layout(sh), m, xff), "hdrof f"],
                           'tags': {'layout': lname, 'writer': 'whispertool_unsorted', 'levels': k, 'method': m}})
+    if thorough:
+        # an archive of more than 16 MiB of slots read in one window (a fetch, through a fresh handle, and
+        # after a second lap position): what was stored is what is read, wherever it lies in the file
+        N = 1500000
+        nw = 1700000000 + rnd.randint(0, 10 ** 6)
+        offs = sorted(set([0, 1, 100, N - 1, N - 2, 1398100, 1398101, 1398102, 1398103, 2796202, 300000] + [rnd.randrange(N) for _ in range(12)]), reverse=True)
+        offs = [o for o in offs if o < N]
+        pts = " ".join("%d %016x" % (nw - o, fbits(float(i + 1))) for i, o in enumerate(offs))
+        lines = ["create f 1 1 %d m 2 x 3f000000" % N, "many f 0 %d %d %s" % (nw, len(offs), pts), "fetchk f 0 %d %d %d" % (nw - N, nw, nw),
+                 "fetchk f 0 %d %d %d" % (nw - 1398200, nw, nw), "sync f", "open f", "fetchk f -1 %d %d %d" % (nw - N, nw, nw)]
+        cases.append({'id': 'c06-huge', 'lines': lines, 'tags': {'layout': 'huge_1500000', 'writer': 'whispertool', 'levels': 1, 'method': 2}})
     return cases
 
 
